@@ -67,6 +67,7 @@ func c14Build(cycle, n1, n2 int, withS bool) c14Msg {
 }
 
 type c14Kept struct {
+	nvals [3][]uint64 // slices obtained from nested results
 	vals  []uint64
 	str   string
 	raw   []byte
@@ -98,6 +99,12 @@ func c14Check(r *DecodeResult, m c14Msg, fast bool) c14Kept {
 			x, err := nrs[i].UInt64Value(1)
 			if m.has2[i] {
 				verifAssert2(err == nil, x == m.x2[i], "nested value is this input's value")
+				xs, err := nrs[i].UInt64Values(1)
+				verifAssert2(err == nil, len(xs) == 1, "nested slice accessor")
+				if len(xs) == 1 {
+					verifAssert(xs[0] == m.x2[i], "nested slice element is this input's value")
+					k.nvals[i] = xs
+				}
 			} else {
 				verifAssert(err != nil, "an empty nested message exposes nothing (no stale data)")
 			}
@@ -132,6 +139,11 @@ func c14Check(r *DecodeResult, m c14Msg, fast bool) c14Kept {
 func c14Stable(k c14Kept, m c14Msg) {
 	for i := 0; i < m.n1 && i < len(k.vals); i++ {
 		verifAssert(k.vals[i] == m.v1[i], "safe mode: a slice handed out earlier is intact after Close and later decodes")
+	}
+	for i := 0; i < m.n2; i++ {
+		if m.has2[i] && len(k.nvals[i]) == 1 {
+			verifAssert(k.nvals[i][0] == m.x2[i], "safe mode: a slice handed out by a nested result is intact after Close and later decodes")
+		}
 	}
 	if k.strOK {
 		verifAssertBytesEq([]byte(k.str), m.s, "safe mode: a string handed out earlier is intact after Close and later decodes")
